@@ -37,6 +37,12 @@ CORPUS = [
     (["10 PRINT 1:GOTO 30", "20 END", "30 REM"], []),
     (["10 GOSUB 30:PRINT 2:END", "30 PRINT 1:RETURN:END", "40 ' tail"], []),
     (["10 FOR I=1 TO 2:PRINT I:NEXT:IF I=9 THEN END"], []),
+    # FOR assigns the start value, then evaluates the limit, then the step: both may mention the loop variable
+    (["10 I=10:FOR I=1 TO I+2:PRINT I;:NEXT"], []),
+    (["10 FOR J=1 TO 2", "20 FOR I=1 TO I+1", "30 PRINT J;I", "40 NEXT I", "50 NEXT J"], []),
+    (["10 GOSUB 100:GOSUB 100", "20 END", "100 FOR K=1 TO K*3:PRINT K;:NEXT:PRINT:RETURN"], []),
+    (["10 I=3:FOR I=I TO I+4 STEP I-1:PRINT I;:NEXT:PRINT I"], []),
+    (["10 I%=7:FOR I%=2 TO I%*2 STEP I%:PRINT I%;:NEXT"], []),
     (["0 X=X+1:PRINT X;", "5 IF 0 THEN PRINT \"NEVER\"", "10 IF X<3 THEN 0", "20 PRINT \"DONE\""], []),
 ]
 
